@@ -12,6 +12,10 @@ Helper lemmas for `Props/C02e.lean`: the Typst translator over typst-syntax's tr
 * C. `parseExpr_sorted`: under `treeOK` and `inOrder` the tokens lie between the threaded bounds
   and are pairwise ordered and disjoint.
 * D. `convFlags` (`convert_parbreaks`) position by position.
+* E. (w24) `parseExpr_zw`: if the translator returns, then under `solidN` (`RangesSolid`) every zero-width
+  token is a structural break — by inverting the `do` blocks, no cursor invariant, no `TreeOK`.
+* F. (w24) `maskLoop_pos` / `htmlParse_pos`: every token of the HTML parser covers a character when
+  the inner parser's tokens do.
 -/
 namespace Harper.Typst
 open Harper Harper.Md
@@ -1190,5 +1194,564 @@ theorem typstParse_chain (top : TNodes) (h : TreeOK E.bs top) (ho : InOrder E to
   exact ⟨l, hl, hch.sorted⟩
 
 end
+
+/-! ## E. zero-width tokens are structural breaks under `RangesSolid` (w24)
+
+Partial-correctness style: from `… = .ok o` by inverting the `do` blocks; no cursor invariant and no
+`TreeOK` is needed — `def_token!` over a range with at least one character is at least one character
+wide whatever the cursor was, as long as the two `push_to` did not panic. -/
+
+/-- a zero-width token of the list is a `ParagraphBreak` or a `Newline` -/
+def ZW (l : List Tok) : Prop := ∀ t ∈ l, t.span.start = t.span.stop → Structural t
+
+theorem ZW.nil : ZW [] := by intro t h; cases h
+
+theorem ZW.append {l1 l2 : List Tok} (h1 : ZW l1) (h2 : ZW l2) : ZW (l1 ++ l2) := by
+  intro t ht
+  rcases List.mem_append.mp ht with h | h
+  · exact h1 t h
+  · exact h2 t h
+
+theorem ZW.of_pos {l : List Tok} (h : ∀ t ∈ l, t.span.start < t.span.stop) : ZW l := by
+  intro t ht h0
+  have := h t ht
+  omega
+
+theorem ZW.of_kind {l : List Tok} (h : ∀ t ∈ l, Structural t) : ZW l := fun t ht _ => h t ht
+
+/-- inversion of one `←` -/
+theorem bind_ok {α β : Type} {x : Except Panic α} {f : α → Except Panic β} {b : β}
+    (h : (x >>= f) = .ok b) : ∃ a, x = .ok a ∧ f a = .ok b := by
+  cases x with
+  | error e => cases h
+  | ok a => exact ⟨a, rfl, h⟩
+
+theorem pure_ok {α : Type} {a b : α} (h : (pure a : Except Panic α) = .ok b) : a = b := by
+  cases h; rfl
+
+theorem pushTo_byte {bs : List Nat} {c c' : Cursor} {b : Nat} (h : c.pushTo bs b = .ok c') :
+    c'.byte = b := by
+  unfold Cursor.pushTo at h
+  split at h
+  · cases h
+  · split at h
+    · rename_i he; cases h; exact he.symm
+    · split at h
+      · cases h; rfl
+      · cases h
+
+theorem pushTo_char {bs : List Nat} {c c' : Cursor} {b : Nat} (h : c.pushTo bs b = .ok c')
+    (hlt : c.byte < b) : c'.char = c.char + charCount ((bs.drop c.byte).take (b - c.byte)) := by
+  unfold Cursor.pushTo at h
+  rw [if_neg (by omega), if_neg (by omega)] at h
+  split at h
+  · rename_i n hn
+    cases h
+    unfold sliceCount at hn
+    split at hn
+    · cases hn; rfl
+    · cases hn
+  · cases h
+
+theorem solidR_lt {bs : List Nat} {s e : Nat} (h : solidR bs (some (s, e)) = true) :
+    1 ≤ charCount ((bs.drop s).take (e - s)) ∧ s < e := by
+  have hpos : 1 ≤ charCount ((bs.drop s).take (e - s)) := by simpa [solidR] using h
+  refine ⟨hpos, ?_⟩
+  apply Classical.byContradiction
+  intro hn
+  have h0 : e - s = 0 := by omega
+  rw [h0] at hpos
+  simp [charCount] at hpos
+
+/-- `def_token!` over a range that covers a character: the token is at least one character wide,
+from whatever cursor (if the two `push_to` do not panic) -/
+theorem defToken_pos {bs : List Nat} {s e : Nat} {k : Kind} {c : Cursor} {o : Option (List Tok)}
+    (h : defToken bs (some (s, e)) k c = .ok o) (hs : solidR bs (some (s, e)) = true) :
+    ∀ t ∈ o.getD [], t.span.start < t.span.stop := by
+  obtain ⟨hpos, hlt⟩ := solidR_lt hs
+  simp only [defToken] at h
+  obtain ⟨st, h1, h⟩ := bind_ok h
+  obtain ⟨sp, h2, h⟩ := bind_ok h
+  have := pure_ok h
+  subst this
+  have hb := pushTo_byte h1
+  have hch := pushTo_char h2 (by omega)
+  rw [hb] at hch
+  intro t ht
+  simp only [Option.getD_some, List.mem_singleton] at ht
+  subst ht
+  simp only
+  omega
+
+/-- … and with a structural kind, or over a detached / solid range: `ZW` -/
+theorem defToken_zw {bs : List Nat} {r : BRange} {k : Kind} {c : Cursor} {o : Option (List Tok)}
+    (h : defToken bs r k c = .ok o)
+    (hk : (k = .paragraphBreak ∨ k.isNewline = true) ∨ solidR bs r = true) : ZW (o.getD []) := by
+  cases r with
+  | none =>
+    simp only [defToken] at h
+    cases h
+    exact ZW.nil
+  | some p =>
+    obtain ⟨s, e⟩ := p
+    rcases hk with hk | hk
+    · apply ZW.of_kind
+      simp only [defToken] at h
+      obtain ⟨st, h1, h⟩ := bind_ok h
+      obtain ⟨sp, h2, h⟩ := bind_ok h
+      have := pure_ok h
+      subst this
+      intro t ht
+      simp only [Option.getD_some, List.mem_singleton] at ht
+      subst ht
+      exact hk
+    · exact ZW.of_pos (defToken_pos h hk)
+
+theorem parseLeaf_zw {bs : List Nat} {k : LeafKind} {r : BRange} {c : Cursor} {o : Option (List Tok)}
+    (h : parseLeaf bs k r c = .ok o) (hk : k.structural = true ∨ solidR bs r = true) :
+    ZW (o.getD []) := by
+  simp only [parseLeaf] at h
+  obtain ⟨c1, _, h⟩ := bind_ok h
+  refine defToken_zw h ?_
+  rcases hk with hk | hk
+  · left
+    cases k <;> simp [LeafKind.structural] at hk <;> simp [leafKind, Kind.isNewline]
+  · exact Or.inr hk
+
+/-- the inner parser's tokens tile its text: every one of them covers a character, shifted or not -/
+theorem inner_pos {inner : List Char → Except Panic (List Tok)} (hin : Md.InnerOK inner)
+    {txt : List Char} {toks : List Tok} (h : inner txt = .ok toks) (p : Nat) :
+    ∀ t ∈ toks.map (·.shift p), t.span.start < t.span.stop := by
+  obtain ⟨toks', h', ht⟩ := hin txt
+  rw [h] at h'; cases h'
+  obtain ⟨hf, _⟩ := tiles_facts toks 0 txt.length ht
+  intro t hm
+  obtain ⟨u, hu, rfl⟩ := List.mem_map.mp hm
+  have := hf u hu
+  simp only [Tok.shift, Span.pushBy]
+  omega
+
+theorem solidArgs_items {bs : List Nat} : (is : TItems) → solidArgs bs is = true → solidIs bs is = true
+  | .nil, _ => by simp [solidIs]
+  | .cons i is, h => by
+    simp only [solidArgs, Bool.and_eq_true] at h
+    simp only [solidIs, Bool.and_eq_true]
+    exact ⟨h.1.2, solidArgs_items is h.2⟩
+
+theorem deadTokens_zw {bs : List Nat} (spec : Bool × List (List Char)) :
+    (is : TItems) → ∀ (c : Cursor) (l : List Tok), deadTokens bs spec is c = .ok l →
+      solidArgs bs is = true → ZW l
+  | .nil, c, l, h, _ => by
+    simp only [deadTokens] at h
+    cases h
+    exact ZW.nil
+  | .cons i is, c, l, h, hs => by
+    simp only [solidArgs, Bool.and_eq_true] at hs
+    simp only [deadTokens] at h
+    by_cases hd : isDead spec i = true
+    · rw [if_pos hd] at h
+      obtain ⟨a, ha, h⟩ := bind_ok h
+      obtain ⟨b, hb, h⟩ := bind_ok h
+      have := pure_ok h
+      subst this
+      exact (defToken_zw ha (Or.inr hs.1.1)).append (deadTokens_zw spec is c b hb hs.2)
+    · rw [if_neg hd] at h
+      obtain ⟨a, ha, h⟩ := bind_ok h
+      obtain ⟨b, hb, h⟩ := bind_ok h
+      have := pure_ok ha
+      subst this
+      have := pure_ok h
+      subst this
+      exact ZW.nil.append (deadTokens_zw spec is c b hb hs.2)
+
+section
+variable (E : Env) (hin : Md.InnerOK E.inner)
+include hin
+
+mutual
+theorem parseExpr_zw : (n : TNode) → ∀ (c : Cursor) (o : Option (List Tok)),
+    parseExpr E n c = .ok o → solidN E.bs n = true → ZW (o.getD [])
+  | .text r txt, c, o, h, _ => by
+    simp only [parseExpr] at h
+    obtain ⟨c1, _, h⟩ := bind_ok h
+    obtain ⟨c2, _, h⟩ := bind_ok h
+    simp only [parseEnglish] at h
+    obtain ⟨toks, ht, h⟩ := bind_ok h
+    have := pure_ok h
+    subst this
+    exact ZW.of_pos (inner_pos hin ht _)
+  | .space r, c, o, h, _ => by
+    simp only [parseExpr, parseSpace] at h
+    obtain ⟨c1, _, h⟩ := bind_ok h
+    cases r with
+    | none => simp [getText] at h
+    | some p =>
+      obtain ⟨s, e⟩ := p
+      -- a non-empty `get_text!` is a slice of `n2 ≥ 1` characters: the range is solid
+      have hsol : ∀ ch rest, getText E.bs E.src (some (s, e)) = ch :: rest →
+          solidR E.bs (some (s, e)) = true := by
+        intro ch rest hg
+        simp only [getText] at hg
+        split at hg
+        · rename_i n1 n2 _ hn2
+          unfold sliceCount at hn2
+          split at hn2
+          · cases hn2
+            have := congrArg List.length hg
+            simp only [List.length_take, List.length_drop, List.length_cons] at this
+            simp only [solidR, decide_eq_true_eq]
+            omega
+          · cases hn2
+        · cases hg
+      split at h
+      · cases h
+      · rename_i ch rest hg
+        have hs := hsol ch rest hg
+        split at h
+        · exact defToken_zw h (Or.inr hs)
+        · exact defToken_zw h (Or.inr hs)
+  | .leaf k r, c, o, h, hs => by
+    simp only [parseExpr] at h
+    simp only [solidN, Bool.or_eq_true] at hs
+    exact parseLeaf_zw h hs
+  | .body k r es, c, o, h, hs => by
+    simp only [parseExpr] at h
+    obtain ⟨c1, _, h⟩ := bind_ok h
+    obtain ⟨ts, h2, h⟩ := bind_ok h
+    have := pure_ok h
+    subst this
+    simp only [solidN] at hs
+    exact parseSeq_zw es _ c1 ts h2 hs
+  | .str r txt, c, o, h, _ => by
+    simp only [parseExpr] at h
+    obtain ⟨c1, _, h⟩ := bind_ok h
+    obtain ⟨c2, _, h⟩ := bind_ok h
+    obtain ⟨content, _, h⟩ := bind_ok h
+    obtain ⟨toks, ht, h⟩ := bind_ok h
+    have := pure_ok h
+    subst this
+    exact ZW.of_pos (inner_pos hin ht _)
+  | .rec1 k r e, c, o, h, hs => by
+    simp only [parseExpr] at h
+    obtain ⟨c1, _, h⟩ := bind_ok h
+    simp only [solidN] at hs
+    exact parseExpr_zw e c1 o h hs
+  | .recN k r es, c, o, h, hs => by
+    simp only [parseExpr] at h
+    obtain ⟨c1, _, h⟩ := bind_ok h
+    obtain ⟨ts, h2, h⟩ := bind_ok h
+    have := pure_ok h
+    subst this
+    simp only [solidN] at hs
+    exact parseAll_zw es c1 ts h2 hs
+  | .array r items, c, o, h, hs => by
+    simp only [parseExpr] at h
+    obtain ⟨c1, _, h⟩ := bind_ok h
+    obtain ⟨ts, h2, h⟩ := bind_ok h
+    have := pure_ok h
+    subst this
+    simp only [solidN] at hs
+    exact parseItems_zw _ items c1 ts h2 hs
+  | .dict r items, c, o, h, hs => by
+    simp only [parseExpr] at h
+    obtain ⟨c1, _, h⟩ := bind_ok h
+    obtain ⟨ts, h2, h⟩ := bind_ok h
+    have := pure_ok h
+    subst this
+    simp only [solidN] at hs
+    exact parseItems_zw _ items c1 ts h2 hs
+  | .fieldAccess r target field, c, o, h, hs => by
+    simp only [parseExpr] at h
+    simp only [solidN, Bool.and_eq_true] at hs
+    obtain ⟨c1, _, h⟩ := bind_ok h
+    obtain ⟨a, ha, h⟩ := bind_ok h
+    obtain ⟨f, hf, h⟩ := bind_ok h
+    cases f with
+    | none =>
+      have := pure_ok h
+      subst this
+      exact ZW.nil
+    | some ft =>
+      have := pure_ok h
+      subst this
+      exact (parseExpr_zw target c1 a ha hs.1).append (defToken_zw hf (Or.inr hs.2))
+  | .letBinding r kind init, c, o, h, hs => by
+    simp only [parseExpr] at h
+    simp only [solidN, Bool.and_eq_true] at hs
+    obtain ⟨c1, _, h⟩ := bind_ok h
+    obtain ⟨a, ha, h⟩ := bind_ok h
+    obtain ⟨b, hb, h⟩ := bind_ok h
+    have := pure_ok h
+    subst this
+    exact (parseExpr_zw kind c1 a ha hs.1).append (parseAll_zw init c1 b hb hs.2)
+  | .letClosure r, c, o, h, _ => by
+    simp only [parseExpr] at h
+    have := pure_ok h
+    subst this
+    exact ZW.nil
+  | .setRule r target cond args, c, o, h, hs => by
+    simp only [parseExpr] at h
+    simp only [solidN, Bool.and_eq_true] at hs
+    obtain ⟨c1, _, h⟩ := bind_ok h
+    obtain ⟨a, ha, h⟩ := bind_ok h
+    obtain ⟨b, hb, h⟩ := bind_ok h
+    obtain ⟨d, hd, h⟩ := bind_ok h
+    have := pure_ok h
+    subst this
+    exact ((parseExpr_zw target c1 a ha hs.1.1).append (parseAll_zw cond c1 b hb hs.1.2)).append
+      (parseItems_zw _ args c1 d hd hs.2)
+  | .closure r name params body, c, o, h, hs => by
+    simp only [parseExpr] at h
+    simp only [solidN, Bool.and_eq_true] at hs
+    obtain ⟨c1, _, h⟩ := bind_ok h
+    obtain ⟨a, ha, h⟩ := bind_ok h
+    obtain ⟨p, hp, h⟩ := bind_ok h
+    obtain ⟨b, hb, h⟩ := bind_ok h
+    have := pure_ok h
+    subst this
+    exact ((parseAll_zw name c1 a ha hs.1.1).append (parseItems_zw _ params c1 p hp hs.1.2)).append
+      (parseExpr_zw body c1 b hb hs.2)
+  | .funcCall r callee args, c, o, h, hs => by
+    simp only [parseExpr] at h
+    simp only [solidN, Bool.and_eq_true] at hs
+    obtain ⟨c1, _, h⟩ := bind_ok h
+    obtain ⟨ct, hct, h⟩ := bind_ok h
+    have hzc := defToken_zw hct (Or.inr hs.1)
+    cases ct with
+    | none =>
+      have := pure_ok h
+      subst this
+      exact ZW.nil
+    | some ctl =>
+      simp only at h
+      split at h
+      · rename_i spec _
+        obtain ⟨alive, hal, h⟩ := bind_ok h
+        obtain ⟨dead, hdl, h⟩ := bind_ok h
+        have := pure_ok h
+        subst this
+        exact (hzc.append (deadTokens_zw spec args c1 dead hdl hs.2)).append
+          (parseItems_zw _ args c1 alive hal (solidArgs_items args hs.2))
+      · obtain ⟨a, ha, h⟩ := bind_ok h
+        have := pure_ok h
+        subst this
+        exact hzc.append (parseItems_zw _ args c1 a ha (solidArgs_items args hs.2))
+  | .patPlaceholder r, c, o, h, hs => by
+    simp only [parseExpr] at h
+    simp only [solidN] at hs
+    exact defToken_zw h (Or.inr hs)
+  | .patParen r e p, c, o, h, hs => by
+    simp only [parseExpr] at h
+    simp only [solidN, Bool.and_eq_true] at hs
+    obtain ⟨a, ha, h⟩ := bind_ok h
+    obtain ⟨b, hb, h⟩ := bind_ok h
+    have := pure_ok h
+    subst this
+    exact (parseExpr_zw e c a ha hs.1).append (parseExpr_zw p c b hb hs.2)
+  | .patDestruct r items, c, o, h, hs => by
+    simp only [parseExpr] at h
+    obtain ⟨ts, h2, h⟩ := bind_ok h
+    have := pure_ok h
+    subst this
+    simp only [solidN] at hs
+    exact parseItems_zw _ items c ts h2 hs
+theorem parseSeq_zw : (es : TNodes) → ∀ (fl : List Bool) (c : Cursor) (l : List Tok),
+    parseSeq E fl es c = .ok l → solidL E.bs es = true → ZW l
+  | .nil, fl, c, l, h, _ => by
+    simp only [parseSeq] at h
+    have := pure_ok h
+    subst this
+    exact ZW.nil
+  | .cons e es, fl, c, l, h, hs => by
+    simp only [parseSeq] at h
+    simp only [solidL, Bool.and_eq_true] at hs
+    by_cases hf : fl.headD false = true
+    · rw [if_pos hf] at h
+      obtain ⟨a, ha, h⟩ := bind_ok h
+      obtain ⟨b, hb, h⟩ := bind_ok h
+      have := pure_ok h
+      subst this
+      exact (parseLeaf_zw ha (Or.inl rfl)).append (parseSeq_zw es _ c b hb hs.2)
+    · rw [if_neg hf] at h
+      obtain ⟨a, ha, h⟩ := bind_ok h
+      obtain ⟨b, hb, h⟩ := bind_ok h
+      have := pure_ok h
+      subst this
+      exact (parseExpr_zw e c a ha hs.1).append (parseSeq_zw es _ c b hb hs.2)
+theorem parseAll_zw : (es : TNodes) → ∀ (c : Cursor) (l : List Tok),
+    parseAll E es c = .ok l → solidL E.bs es = true → ZW l
+  | .nil, c, l, h, _ => by
+    simp only [parseAll] at h
+    have := pure_ok h
+    subst this
+    exact ZW.nil
+  | .cons e es, c, l, h, hs => by
+    simp only [parseAll] at h
+    simp only [solidL, Bool.and_eq_true] at hs
+    obtain ⟨a, ha, h⟩ := bind_ok h
+    obtain ⟨b, hb, h⟩ := bind_ok h
+    have := pure_ok h
+    subst this
+    exact (parseExpr_zw e c a ha hs.1).append (parseAll_zw es c b hb hs.2)
+theorem parseItem_zw : (i : TItem) → ∀ (c : Cursor) (o : Option (List Tok)),
+    parseItem E i c = .ok o → solidI E.bs i = true → ZW (o.getD [])
+  | .pos n, c, o, h, hs => by
+    simp only [parseItem] at h
+    simp only [solidI] at hs
+    exact parseExpr_zw n c o h hs
+  | .named r name t value, c, o, h, hs => by
+    simp only [parseItem] at h
+    simp only [solidI, Bool.and_eq_true] at hs
+    obtain ⟨a, ha, h⟩ := bind_ok h
+    obtain ⟨b, hb, h⟩ := bind_ok h
+    have := pure_ok h
+    subst this
+    exact (parseExpr_zw name c a ha hs.1).append (parseExpr_zw value c b hb hs.2)
+  | .dnamed r name pat, c, o, h, hs => by
+    simp only [parseItem] at h
+    simp only [solidI, Bool.and_eq_true] at hs
+    obtain ⟨a, ha, h⟩ := bind_ok h
+    have hza := defToken_zw ha (Or.inr hs.1)
+    cases a with
+    | none =>
+      have := pure_ok h
+      subst this
+      exact ZW.nil
+    | some al =>
+      simp only at h
+      obtain ⟨b, hb, h⟩ := bind_ok h
+      have := pure_ok h
+      subst this
+      exact hza.append (parseExpr_zw pat c b hb hs.2)
+  | .keyed r key value, c, o, h, hs => by
+    simp only [parseItem] at h
+    simp only [solidI, Bool.and_eq_true] at hs
+    obtain ⟨a, ha, h⟩ := bind_ok h
+    obtain ⟨b, hb, h⟩ := bind_ok h
+    have := pure_ok h
+    subst this
+    exact (parseExpr_zw key c a ha hs.1).append (parseExpr_zw value c b hb hs.2)
+  | .spread r es, c, o, h, hs => by
+    simp only [parseItem] at h
+    obtain ⟨ts, h2, h⟩ := bind_ok h
+    have := pure_ok h
+    subst this
+    simp only [solidI] at hs
+    exact parseAll_zw es c ts h2 hs
+theorem parseItems_zw (keep : TItem → Bool) : (is : TItems) → ∀ (c : Cursor) (l : List Tok),
+    parseItems E keep is c = .ok l → solidIs E.bs is = true → ZW l
+  | .nil, c, l, h, _ => by
+    simp only [parseItems] at h
+    have := pure_ok h
+    subst this
+    exact ZW.nil
+  | .cons i is, c, l, h, hs => by
+    simp only [parseItems] at h
+    simp only [solidIs, Bool.and_eq_true] at hs
+    by_cases hk : keep i = true
+    · rw [if_pos hk] at h
+      obtain ⟨a, ha, h⟩ := bind_ok h
+      obtain ⟨b, hb, h⟩ := bind_ok h
+      have := pure_ok h
+      subst this
+      exact (parseItem_zw i c a ha hs.1).append (parseItems_zw keep is c b hb hs.2)
+    · rw [if_neg hk] at h
+      obtain ⟨a, ha, h⟩ := bind_ok h
+      obtain ⟨b, hb, h⟩ := bind_ok h
+      have := pure_ok ha
+      subst this
+      have := pure_ok h
+      subst this
+      exact ZW.nil.append (parseItems_zw keep is c b hb hs.2)
+end
+
+/-- `Typst::parse`: if it returns, then under `RangesSolid` every zero-width token is a paragraph break
+or a newline — no `TreeOK` needed -/
+theorem typstParse_zw (top : TNodes) (toks : List Tok) (h : typstParse E top = .ok toks)
+    (hs : RangesSolid E.bs top) : ZW toks :=
+  parseSeq_zw E hin top _ ⟨0, 0⟩ toks h hs
+
+end
+
+/-! ## F. HTML: every token of the `Mask` parse covers a character (w24) -/
+
+theorem getContent_nonempty {s : Span} {src c : List Char} (h : s.getContent src = .ok c)
+    (hc : c ≠ []) : s.start < s.stop := by
+  unfold Span.getContent at h
+  split at h
+  · cases h
+  · split at h
+    · split at h
+      · cases h; exact absurd rfl hc
+      · cases h
+    · cases h
+      apply Classical.byContradiction
+      intro hn
+      have h0 : s.stop - s.start = 0 := by omega
+      rw [h0] at hc
+      simp at hc
+
+theorem gapBreak_pos {src : List Char} {last : Option Span} {s : Span} {l : List Tok}
+    (h : gapBreak src last s = .ok l) : ∀ t ∈ l, t.span.start < t.span.stop := by
+  cases last with
+  | none => simp only [gapBreak] at h; cases h; intro t ht; cases ht
+  | some lst =>
+    simp only [gapBreak] at h
+    obtain ⟨iv, _, h⟩ := bind_ok h
+    obtain ⟨c, hc, h⟩ := bind_ok h
+    have := pure_ok h
+    subst this
+    intro t ht
+    split at ht
+    · rename_i hnl
+      simp only [List.mem_singleton] at ht
+      subst ht
+      refine getContent_nonempty hc ?_
+      intro he; subst he; simp at hnl
+    · cases ht
+
+/-- `parsers::Mask::parse`: if the inner parser's tokens all cover a character (a tiling lexer's do),
+so do all tokens of the masked parse — a `ParagraphBreak` is only put over a gap that contains a
+line feed. No hypothesis on the mask. -/
+theorem maskLoop_pos (src : List Char) (inner : List Char → List Tok)
+    (hpos : ∀ c, ∀ t ∈ inner c, t.span.start < t.span.stop) :
+    ∀ (mask : List Span) (last : Option Span) (toks : List Tok),
+      maskLoop src inner last mask = .ok toks → ∀ t ∈ toks, t.span.start < t.span.stop := by
+  intro mask
+  induction mask with
+  | nil => intro last toks h; simp only [maskLoop] at h; cases h; intro t ht; cases ht
+  | cons s rest ih =>
+    intro last toks h
+    simp only [maskLoop] at h
+    obtain ⟨content, _, h⟩ := bind_ok h
+    obtain ⟨brk, hb, h⟩ := bind_ok h
+    obtain ⟨rest', hr, h⟩ := bind_ok h
+    have := pure_ok h
+    subst this
+    intro t ht
+    rcases List.mem_append.mp ht with ht | ht
+    · rcases List.mem_append.mp ht with ht | ht
+      · exact gapBreak_pos hb t ht
+      · obtain ⟨u, hu, rfl⟩ := List.mem_map.mp ht
+        have := hpos content u hu
+        simp only [Tok.shift, Span.pushBy]
+        omega
+    · exact ih (some s) rest' hr t ht
+
+theorem clampTok_span (t : Tok) : (clampTok t).span = t.span := by
+  unfold clampTok; split <;> rfl
+
+theorem htmlParse_pos (src : List Char) (mask : List Span) (inner : List Char → List Tok)
+    (hpos : ∀ c, ∀ t ∈ inner c, t.span.start < t.span.stop) (toks : List Tok)
+    (h : htmlParse src mask inner = .ok toks) : ∀ t ∈ toks, t.span.start < t.span.stop := by
+  simp only [htmlParse] at h
+  obtain ⟨ts, h1, h⟩ := bind_ok h
+  have := pure_ok h
+  subst this
+  intro t ht
+  simp only [htmlSpaceClamp, List.mem_map] at ht
+  obtain ⟨u, hu, rfl⟩ := ht
+  rw [clampTok_span]
+  exact maskLoop_pos src inner hpos mask none ts h1 u hu
 
 end Harper.Typst
